@@ -1084,7 +1084,7 @@ static int SendStereoAudio(int         samples_requested,
             CopySamplesTransformed<int16_t>(left, right, _in, toCopy / 2, sampleOffset, cvt);
             break;
         case sizeof(int32_t):
-            CopySamplesRaw<int32_t>(left, right, _in, toCopy / 2, sampleOffset);
+            CopySamplesTransformed<int32_t>(left, right, _in, toCopy / 2, sampleOffset, cvt);
             break;
         default:
             return -1;
